@@ -40,6 +40,27 @@ def handle (line : String) : String :=
       | _ => "bad-op"
     | _, _ => "bad-op"
   else
+  -- `at alg= st=<state words, LE> buf=<buffered tail> len=<total byte count> ops= src=`:
+  -- a history that starts from a digest built by the hook VerifNewAt
+  if o.cmd == "at" then
+    match o.get? "ops", o.hex? "src", o.hex? "st", o.hex? "buf", o.nat? "len" with
+    | some opsS, some src, some st, some buf, some len =>
+      let toks := if opsS == "-" then [] else opsS.splitOn ","
+      if buf.length ≥ 64 ∨ len ≥ 2 ^ 64 then "bad-op" else
+      match parseOps toks src with
+      | none => "bad-op"
+      | some ops =>
+        let w (i : Nat) : UInt32 := le32 (st.drop (4 * i))
+        match o.str "alg" with
+        | "md4" =>
+          if st.length != 16 then "bad-op" else
+          showOuts (run Md4.alg ⟨⟨w 0, w 1, w 2, w 3⟩, buf, UInt64.ofNat len⟩ ops)
+        | "rmd160" =>
+          if st.length != 20 then "bad-op" else
+          showOuts (run Rmd.alg ⟨⟨w 0, w 1, w 2, w 3, w 4⟩, buf, UInt64.ofNat len⟩ ops)
+        | _ => "bad-op"
+    | _, _, _, _, _ => "bad-op"
+  else
   if o.cmd != "h" then "bad-op" else
   match o.get? "ops", o.hex? "src" with
   | some opsS, some src =>
